@@ -3,7 +3,7 @@
    own oracle (round trip, on the implementation's answers) and the computable guard
    clauses of the C04 theorems. *)
 From Coq Require Import NArith ZArith List Bool.
-From XV Require Import Base.Str Base.Eqb Model.Bind Model.EventGen Model.DictCodec.
+From XV Require Import Base.Str Base.Eqb Base.PyInt Model.Bind Model.EventGen Model.DictCodec.
 Import ListNotations.
 Open Scope N_scope.
 
@@ -376,3 +376,123 @@ Definition failure_class (uk : universe * dc_case) : N :=
        end.
 Definition not_class (n : N) (uk : universe * dc_case) : bool := negb (N.eqb (failure_class uk) n).
 Definition negb_ambiguous (uk : universe * dc_case) : bool := negb (decode_ambiguous uk).
+
+(* ================================================================ the proved slice (D1) *)
+(* The guard of theorems C04_dict_roundtrip / C04_dict_roundtrip_filter_none: instances whose
+   reachable classes use Text / Element / Attribute fields of one primitive, enum or class
+   type (class without subclasses), scalar / list / tokens / list of tokens, no wrapper;
+   every primitive leaf survives the converter (property C05's subject, here a computable
+   condition on the instance), tokens are non-empty and free of whitespace. *)
+
+(* the text DictDecoder hands to converter.deserialize for the encoded form of p *)
+Definition json_text (c : conv) (u : universe) (fmt : option str) (p : prim) : option str :=
+  match (match p with PEnum e m => enum_value u e m | _ => Some p end) with
+  | Some (PStr s) => Some s
+  | Some (PInt z) => Some (c_ser c None (PInt z))
+  | Some (PBool b) => Some (c_ser c None (PBool b))
+  | Some (PFloat r) => Some (c_ser c None (PFloat r))
+  | Some (PEnum _ _) => None
+  | Some q => Some (c_ser c fmt q)
+  | None => None
+  end.
+
+Definition oprim_eqb := opt_eqb prim_eqb.
+
+Definition leaf_ok (c : conv) (u : universe) (var : xvar) (p : prim) : bool :=
+  match json_text c u (v_format var) p with
+  | Some s => oprim_eqb (c_deser c (v_types var) (v_format var) [] s) (Some p)
+  | None => false
+  end.
+
+Definition token_text_ok (c : conv) (u : universe) (var : xvar) (p : prim) : bool :=
+  match json_text c u (v_format var) p with
+  | Some s => nonempty s && forallb (fun ch => negb (py_isspace ch)) s
+  | None => false
+  end.
+
+Definition d1_var (u : universe) (var : xvar) : bool :=
+  (v_is KText var || v_is KElement var || v_is KAttribute var)
+  && match v_wrapper_qname var with None => true | Some _ => false end
+  && v_init var && negb (v_any_type var) && negb (v_mixed var)
+  && match v_elements var with [] => true | _ => false end
+  && match v_types var with
+     | [TClass c'] => opt_eqb N.eqb (v_clazz var) (Some c') && negb (v_tokens var)
+                      && match subclasses_of u c' with [] => true | _ => false end
+     | [TObject] => false
+     | [_] => match v_clazz var with None => true | Some _ => false end
+     | _ => false
+     end
+  && match v_factory var with None | Some FList => true | Some FTuple => false end
+  && match v_tokens_factory var with None | Some FList => true | Some FTuple => false end.
+
+Definition same_keys (a b : list str) : bool :=
+  forallb (fun k => existsb (str_eqb k) b) a && forallb (fun k => existsb (str_eqb k) a) b.
+
+Fixpoint d1_value (g : generics) (c : conv) (u : universe) (fuel : nat) (v : value) {struct fuel} : bool :=
+  match fuel with
+  | O => false
+  | S f =>
+      match v with
+      | VObj cl fs =>
+          match u_meta u cl with
+          | None => false
+          | Some meta =>
+              let vars := get_all_vars meta in
+              let item := fun (var : xvar) (x : value) =>
+                match x with
+                | VP p => existsb (ptype_eqb (prim_type p)) (v_types var) && leaf_ok c u var p
+                | VObj c' _ => opt_eqb N.eqb (v_clazz var) (Some c') && d1_value g c u f x
+                | _ => false
+                end in
+              let token := fun (var : xvar) (x : value) =>
+                match x with
+                | VP p => existsb (ptype_eqb (prim_type p)) (v_types var) && leaf_ok c u var p && token_text_ok c u var p
+                | _ => false
+                end in
+              negb (N.eqb cl (g_any g)) && negb (N.eqb cl (g_derived g))
+              && list_eqb str_eqb (map fst fs) (map v_name vars)
+              && distinct_keys (map v_name vars) && distinct_keys (map v_local_name vars)
+              && negb (same_keys (map v_local_name vars) DERIVED_KEYS)
+              && negb (same_keys (map v_local_name vars) ANY_KEYS)
+              && forallb (d1_var u) vars
+              && forallb (fun var =>
+                   match assoc (v_name var) fs with
+                   | None => false
+                   | Some x =>
+                       match v_factory var, v_tokens_factory var with
+                       | None, None =>
+                           match x with
+                           | VNone => match v_default var with DNone => true | _ => false end
+                           | _ => item var x
+                           end
+                       | Some _, None => match x with VList false l => forallb (item var) l | _ => false end
+                       | None, Some _ => match x with VList false l => forallb (token var) l | _ => false end
+                       | Some _, Some _ =>
+                           match x with
+                           | VList false l => forallb (fun y => match y with VList false l' => forallb (token var) l' | _ => false end) l
+                           | _ => false
+                           end
+                       end
+                   end) vars
+          end
+      | _ => false
+      end
+  end.
+
+Definition in_proved_slice (uk : universe * dc_case) : bool :=
+  let '(u, k) := uk in
+  negb (dc_ignore k) && negb (dc_is_list k)
+  && d1_value (dc_gen k) (conv_of_table (dc_table k)) u (S (vdepth (dc_value k))) (dc_value k).
+
+(* the theorem's statement evaluated by the model on the case (sanity of its reading) *)
+Definition theorem_instance (uk : universe * dc_case) : bool :=
+  let '(u, k) := uk in
+  negb (in_proved_slice uk)
+  || match model_encode u k with
+     | Ok j => gres_eqb value_eqb (model_decode u k j)
+                 (Ok (match dc_factory k with
+                      | FDict => dc_value k
+                      | FFilterNone => fill_defaults (dc_gen k) u (S (S (vdepth (dc_value k)))) (dc_value k)
+                      end))
+     | Err _ => false
+     end.
